@@ -6,6 +6,7 @@ import (
 	"bytes"
 	"fmt"
 	"os"
+	"runtime/debug"
 	"sort"
 	"strings"
 	"sync"
@@ -66,15 +67,17 @@ func pdOps(nblocks int) []pdOp {
 
 // mock peer: counts requests on the wire
 type pdPeer struct {
-	fast     bool
-	index    uint32
-	blocks   []pdBlock
-	out      []int // requests sent and not yet answered, per block
-	q        int   // queue length of the RequestBlocks call in progress (0 = none)
-	overQ    string
-	badReq   string
-	requests int
-	cancels  int
+	fast        bool
+	index       uint32
+	blocks      []pdBlock
+	out         []int // requests sent and not yet answered, per block
+	q           int   // queue length of the RequestBlocks call in progress (0 = none)
+	overQ       string
+	overCause   string
+	unsolicited bool // the peer rejected a block for which no request was outstanding
+	badReq      string
+	requests    int
+	cancels     int
 }
 
 func (p *pdPeer) sum() int {
@@ -106,6 +109,10 @@ func (p *pdPeer) RequestPiece(index, begin, length uint32) {
 	}
 	p.out[i]++
 	if p.q > 0 && p.sum() > p.q && p.overQ == "" {
+		p.overCause = "honest-peer-history"
+		if p.unsolicited {
+			p.overCause = "after-unsolicited-reject"
+		}
 		p.overQ = fmt.Sprintf("request for block #%d brings the requests outstanding on the wire to %d %v with queue length %d", i, p.sum(), p.out, p.q)
 	}
 }
@@ -234,7 +241,7 @@ func pdExec(vs *vset, cfg pdConfig, ops []pdOp, seq []int, names []string) (res 
 			d.RequestBlocks(op.arg)
 			pe.q = 0
 			if pe.overQ != "" {
-				fail("outstanding.over-queue-length", "step %d %s: %s", step, op.name, pe.overQ)
+				fail("outstanding.over-queue-length."+pe.overCause, "step %d %s: %s", step, op.name, pe.overQ)
 				pe.overQ = ""
 			}
 		case 1:
@@ -276,6 +283,8 @@ func pdExec(vs *vset, cfg pdConfig, ops []pdOp, seq []int, names []string) (res 
 			}
 			if pe.out[op.arg] > 0 {
 				pe.out[op.arg]--
+			} else {
+				pe.unsolicited = true
 			}
 		case 4:
 			if d.Rejected(8192, 16384) {
@@ -336,6 +345,9 @@ func pdExec(vs *vset, cfg pdConfig, ops []pdOp, seq []int, names []string) (res 
 	}
 	outs := append([]int(nil), pe.out...)
 	res.state = pdKey(pending, done, remaining, outs, att)
+	if pe.unsolicited {
+		res.state += "U"
+	}
 	res.requests = pe.requests
 	_ = sort.Ints
 	return res
@@ -344,18 +356,24 @@ func pdExec(vs *vset, cfg pdConfig, ops []pdOp, seq []int, names []string) (res 
 func TestC17PieceDownloader(t *testing.T) {
 	logger.Disable()
 	rep := core.NewReport("C17", "piecedownloader", "exploration")
-	depth := 8
-	rep.Rule = fmt.Sprintf("breadth-first over ALL operation sequences of length <= %d on the real PieceDownloader; alphabet {RequestBlocks(q in 1,2,5), GotBlock(each block; "+
+	debug.SetGCPercent(400)
+	depthFor := func(nblocks int) int { // quick: 8 steps for pieces of 1-2 blocks, 7 for 3-4 blocks
+		if core.Thorough() {
+			return []int{0, 10, 10, 9, 8}[nblocks]
+		}
+		return []int{0, 8, 8, 7, 7}[nblocks]
+	}
+	depth := 0
+	rep.Rule = fmt.Sprintf("breadth-first over ALL operation sequences of length <= %s on the real PieceDownloader; alphabet {RequestBlocks(q in 1,2,5), GotBlock(each block; "+
 		"first arrival / duplicate / unrequested follow from the history), GotBlock(wrong length), GotBlock(unknown begin), Rejected(each block), Rejected(unknown), Choked, CancelPending}; "+
 		"pieces of 1..4 blocks (incl. short last block) x AllowedFast x peer fast extension. Two sequences that lead to the same (pending, done, remaining order, wire-outstanding vector, arrivals) "+
-		"state are merged (the continuation is executed once from a representative, re-executed from a fresh object); distinct = distinct states.", depth)
+		"state are merged (the continuation is executed once from a representative, re-executed from a fresh object); distinct = distinct states.", map[bool]string{false: "8 (pieces of 1-2 blocks) / 7 (3-4 blocks)", true: "10 (1-2 blocks) / 9 (3 blocks) / 8 (4 blocks)"}[core.Thorough()])
 	rep.Assumptions = []string{"wire model: a request is answered by the block, by a reject, or (peer without fast extension) by a choke; unsolicited rejects/blocks are legal peer behaviour",
 		"block size fixed at 16 KiB by piece.BlockSize (geometry is checked by C02)",
 		"state merge assumes the downloader has no state besides pending/done/remaining/buffer (fields of the struct as of this tree)"}
 	vs := newVset()
 	lengths := []uint32{100, 16384, 16385, 3 * 16384, 3*16384 + 5}
 	if core.Thorough() {
-		depth = 9
 		lengths = append(lengths, 2*16384, 4*16384)
 	}
 	var execs, states, reps, leaks, stalls, doneStates, reqs int64
@@ -364,6 +382,7 @@ func TestC17PieceDownloader(t *testing.T) {
 			for _, pf := range []bool{false, true} {
 				cfg := pdConfig{L, af, pf}
 				ops := pdOps(len(pdBlocksOf(L)))
+				depth = depthFor(len(pdBlocksOf(L)))
 				names := make([]string, len(ops))
 				for i, o := range ops {
 					names[i] = o.name
@@ -444,7 +463,6 @@ func TestC17PieceDownloader(t *testing.T) {
 	rep.Extra["pd_states_with_pipeline_slot_held_by_unrequested_block"] = leaks
 	rep.Extra["pd_states_done"] = doneStates
 	rep.Extra["pd_requests_sent_in_representatives"] = reqs
-	rep.Extra["pd_depth"] = depth
 	if doneStates == 0 || reqs == 0 {
 		core.HarnessError("vacuous: no piece ever completed / no request sent")
 	}
